@@ -17,6 +17,7 @@ import (
 	"crypto/sha256"
 	"encoding/hex"
 	"fmt"
+	"maps"
 	"math"
 	"regexp"
 	"strconv"
@@ -344,6 +345,11 @@ func unionBranch(statement sqlparser.TableStatement, with *sqlparser.With) (Stat
 func BuildCte(query *Query, expr *sqlparser.With) error {
 	if expr == nil {
 		return nil
+	}
+	// CTE names live in a scope of this query, not in the caller's document
+	query.data = maps.Clone(query.data)
+	if query.data == nil {
+		query.data = make(Map)
 	}
 	for _, cte := range expr.CTEs {
 		copy := *cte
